@@ -44,7 +44,7 @@ theorem c01_writeThrough_last_write (cfg : Cfg) (hw : cfg.writeThrough = true) (
 /-- without `WriteThrough` the functional-pool hypothesis is necessary: the code keeps the *first*
 bytes stored under a multihash (counter-model: two puts of different bytes under one multihash) -/
 theorem c01_noWriteThrough_keeps_first :
-    (run ⟨false, false, false⟩ []
+    (run { writeThrough := false, noPrefix := false, idWrap := false } []
       [.put ⟨⟨true, 1, 85, [0x12, 0x01, 0xaa]⟩, [1]⟩, .put ⟨⟨true, 1, 85, [0x12, 0x01, 0xaa]⟩, [2]⟩,
        .get ⟨true, 1, 85, [0x12, 0x01, 0xaa]⟩]).2 = [.ok, .ok, .data [1]] := by decide
 
@@ -95,6 +95,37 @@ contains no further '/', and determines the multihash -/
 theorem c01_key_injective (cfg : Cfg) (a b : Bytes) (h : rk cfg a = rk cfg b) : a = b :=
   rk_injective cfg a b h
 
+/-- **Provider option.** Whatever is announced through `StartProviding` during an operation is the
+multihash of a block of that operation that the identity layer let through; in particular, with the
+identity wrapper an identity multihash is never announced (as it is never stored). -/
+theorem c01_provided_sound (cfg : Cfg) (s : Store) (op : Op) :
+    ∀ call ∈ provided cfg s op, ∀ mh ∈ call, ∃ b ∈ op.blks, isId cfg b.cid = none ∧ mh = b.cid.mh :=
+  provided_sound cfg s op
+
+/-- a `Put` that writes announces exactly its multihash; a `Put` skipped because the block is present
+(no WriteThrough) announces nothing; the Provider never changes state or answers (`step` ignores it) -/
+theorem c01_provided_put (cfg : Cfg) (hp : cfg.provider = true) (hi : cfg.idWrap = false) (s : Store) (b : Blk) :
+    provided cfg s (.put b) =
+      if !cfg.writeThrough && (abs cfg s b.cid.mh).isSome then [] else [[b.cid.mh]] := by
+  simp [provided, hp, hi, bsProvidedPut, abs]
+
+/-- **Interrupted enumeration.** If the consumer of `AllKeysChanWithErr` stops after `j` delivered
+keys, every delivered key is present in the map, and when the error function reports no error the
+delivery was complete (the caveat the `AllKeysChanWithErrer` documentation states). -/
+theorem c01_allKeys_cut (cfg : Cfg) (s : Store) (hk : KeysWF cfg s) (j : Nat) :
+    (∀ mh ∈ (bsAllKeysCut cfg s j).1, (abs cfg s mh).isSome = true) ∧
+    ((bsAllKeysCut cfg s j).2 = false → (bsAllKeysCut cfg s j).1 = bsAllKeys cfg s) := by
+  refine ⟨fun mh hm => ?_, fun h => ?_⟩
+  · exact ((mem_bsAllKeys cfg s hk mh).mp (List.mem_of_mem_take hm)).1
+  · simp only [bsAllKeysCut, decide_eq_false_iff_not, Nat.not_lt] at h
+    simp only [bsAllKeysCut]
+    exact List.take_of_length_le h
+
+/-- on the keys the blockstore writes, go-base32's lenient decoder (modelled for arbitrary foreign
+keys: case-insensitive, newline-stripping, odd trailing groups dropped) inverts the encoder -/
+theorem c01_decode_own_keys (mh : Bytes) : binaryFromDsKey (dsKey mh) = some mh :=
+  binaryFromDsKey_dsKey mh
+
 /-! Non-vacuity: a pool with a v0/v1 alias pair, an identity CID and the empty block. -/
 section Examples
 /-- sha2-256-shaped multihash (shortened digest: the model never hashes) -/
@@ -106,13 +137,19 @@ private def v1A : Cid := ⟨true, 1, 0x55, mhA⟩
 private def v1B : Cid := ⟨true, 1, 0x55, mhB⟩
 private def cidI : Cid := ⟨true, 1, 0x55, idC⟩
 
-example : (run ⟨false, false, true⟩ []
+example : (run { writeThrough := false, noPrefix := false, idWrap := true } []
     [.put ⟨v0A, [7, 7]⟩, .get v1A, .putMany [⟨v1B, []⟩, ⟨cidI, [0xca, 0xfe]⟩], .get cidI, .has v1B,
      .delete v1A, .get v0A, .allKeys]).2 =
     [.ok, .data [7, 7], .ok, .data [0xca, 0xfe], .bool true, .ok, .notfound, .keys [mhB]] := by decide
 
 example : extractContents cidI = some [0xca, 0xfe] := by decide
-example : OpsHonest ⟨false, false, true⟩ (fun mh => if mh = mhA then [7, 7] else [])
+/-- PutMany through the identity layer with the Provider option: one call, identity block filtered -/
+example : provided { writeThrough := false, noPrefix := false, idWrap := true, provider := true } []
+    (.putMany [⟨v1B, []⟩, ⟨cidI, [0xca, 0xfe]⟩, ⟨v0A, [7]⟩]) = [[mhB, mhA]] := by decide
+/-- foreign keys: lower case accepted, a 3-character tail yields nothing, '1' is not in the alphabet -/
+example : decodeGo32 "mzxw6".toList = some [0x66, 0x6f, 0x6f] ∧ decodeGo32 "MZX".toList = some [] ∧
+    decodeGo32 "MZXW1".toList = none := by decide +kernel
+example : OpsHonest { writeThrough := false, noPrefix := false, idWrap := true } (fun mh => if mh = mhA then [7, 7] else [])
     [.put ⟨v0A, [7, 7]⟩, .get v1A, .putMany [⟨v1B, []⟩, ⟨cidI, [0xca, 0xfe]⟩]] := by
   intro op hop b hb hid
   simp at hop
